@@ -124,6 +124,17 @@ def run_property(ck, pid, tier, seed, replay):
         gen = mod.gen(tier, rng)
         cases = corpus + gen
         origin = ["corpus"] * len(corpus) + ["gen"] * len(gen)
+        if tier == "thorough" and os.environ.get("H264V_FUZZ_SECS", "120") != "0":
+            # coverage-guided search for further inputs on which crate and model differ; what it finds is judged below like
+            # any generated case (it only widens the set of inputs, it decides nothing)
+            from vlib import fuzzdiff
+            try:
+                fcases, finfo = fuzzdiff.findings(ck, pid, mod, int(os.environ.get("H264V_FUZZ_SECS", "120")))
+            except Exception as e:
+                fcases, finfo = [], {"skipped": "fuzz step failed: %s" % e}
+            cov["fuzz"] = finfo
+            cases += fcases
+            origin += ["fuzz"] * len(fcases)
 
     stats = {}
     if cases:
